@@ -36,7 +36,7 @@ class KillOnPickle:
         return (int, ())
 
 
-def task(i, d, mode, how, tag):
+def task(i, d, mode, how, tag, payload=None):
     pid = os.getpid()
     open(os.path.join(d, "pid_%s_%d_%d" % (tag, i, pid)), "w").close()
     if mode == "self" :
@@ -100,7 +100,7 @@ def main():
                         try: os.kill(pid, sig_of(how) or signal.SIGKILL); done.add(pid); killed.append(pid)
                         except OSError: done.add(pid)
             time.sleep(0.005)
-    p = Parallel(n_jobs=nj, backend="loky", **({"pre_dispatch": 1} if stage == "cold_single" else {}))
+    p = Parallel(n_jobs=nj, backend="loky", **({"pre_dispatch": 1} if stage == "cold_single" else {"pre_dispatch": "all"} if stage == "big_args" else {}))
     ctx = p if sc.get("managed") else None
     if ctx is not None: p.__enter__()
     try:
@@ -137,6 +137,11 @@ def main():
                 except OSError: pass
             time.sleep(0.5)
             items = [(i, d, "ok", how, "B") for i in range(n)]
+        elif stage == "big_args":
+            # every task carries a 2 MiB argument and all of them are dispatched at once: when the worker dies the executor's
+            # feeder thread is blocked writing the next task into the (full) call pipe
+            big = bytes(2 << 20)
+            items = [(i, d, "self" if i < victims else "ok", how, "B", big) for i in range(12)]
         elif stage == "startup":
             # the worker dies while the next call is starting up (executor being fetched, first tasks being submitted)
             items = [(i, d, "ok", how, "B") for i in range(n)]
